@@ -510,16 +510,18 @@ func init() {
 			{Entry: "VerifC17Break", Covers: []string{"C17.break.end"}, DiffRuns: 10},
 			// 18-key pre-state ("p" + 17 x "p?"): deletes that shrink a node48 carrying a value
 			{Entry: "VerifC17Map", Params: map[string]int{"N": 1, "L": 2, "OPS": 2, "BIGPRE": 17}, Covers: []string{"C17.map.end"}, DiffRuns: 10},
+			// JSON / YAML round trips: the marshalling methods are interpreted, the library calls they make run on the host
+			{Entry: "VerifC17Codec", Params: map[string]int{"N": 2}, Covers: []string{"C17.codec.empty", "C17.codec.singleton", "C17.codec.tree", "C17.codec.end"}, DiffRuns: 40},
 		},
 		Thorough: []HarnessRun{
-			{Entry: "VerifC17Break", Covers: []string{"C17.break.end"}, DiffRuns: 10},
 			c17m(2, 1, 31), c17m(3, 1, 7), c17m(2, 2, 7),
 			{Entry: "VerifC17Map", Params: map[string]int{"N": 1, "L": 2, "OPS": 3, "BIGPRE": 17}, Covers: []string{"C17.map.end"}, DiffRuns: 10},
 			{Entry: "VerifC17Set", Params: map[string]int{"N": 3, "L": 1}, Covers: []string{"C17.set.end", "C17.set.union", "C17.set.difference"}, DiffRuns: 40},
-			{Entry: "VerifKFFromMapSingleton"}, {Entry: "VerifKFMapTxnReuse"},
+			{Entry: "VerifC17Codec", Params: map[string]int{"N": 3}, Covers: []string{"C17.codec.end"}, DiffRuns: 40},
 		},
 		Known: []KnownProbe{{ID: "KF-frommap-singleton", Entry: "VerifKFFromMapSingleton"}, {ID: "KF-maptxn-reuse", Entry: "VerifKFMapTxnReuse"}},
-		Outside: []string{"outside (not encodable): the JSON/YAML round-trip clause of C17 - encoding/json and yaml.v3 are reflection-driven libraries that the VM does not execute; keys longer than L; hash maps with more than 2 entries in FromMap; Map[string,uint64] and Set[string] instantiations only"},
+		Outside: []string{"JSON/YAML round-trip clause: the statedb methods (MarshalJSON, UnmarshalJSON, MarshalYAML, UnmarshalYAML of Map and Set) are interpreted; encoding/json and yaml.v3 themselves are environment, executed by the host on concrete copies of the VM values (symbolic key bytes and numbers are concretised at that boundary: one path per value the solver finds feasible). Bounds: <= N entries (2 quick, 3 thorough), keys from {a,b,c,aa,ba,ca}, values {A in 0..2} x {plain, string field, nested map}; yaml.Unmarshal's callback into UnmarshalYAML is made by the harness (document node -> sequence node)",
+			"outside: keys longer than L; hash maps with more than 2 entries in FromMap; Map[string,uint64], Map[string,struct] and Set[string] instantiations only"},
 	})
 }
 
